@@ -5,6 +5,7 @@ import DilithiumVerif.Lemmas.SignLoop
 import DilithiumVerif.Lemmas.EndToEnd
 import DilithiumVerif.Lemmas.VerifyFips
 import DilithiumVerif.Props.C11
+import DilithiumVerif.Lemmas.SignTerm
 /-
   C01 — Every signature the library produces verifies (all sets, all modes).
   Part 1 (loop logic): the signing loop can end only by returning the signature packed by an accepted
@@ -171,5 +172,28 @@ theorem keypair_object_sign_then_verify (p : Params) (hp : p ∈ allParams) (e :
   · intro fuel msg sig hs
     rw [a5] at hs; rw [a6]
     exact dil_sign_then_verify p hp e tape pk sk tape' hk fuel msg sig hs
+
+open DV.SignFips DV.SignSpec DV.XofSpec DV.Complete in
+/-- **termination, as far as it can be a theorem**: the code's signing loop stops exactly where the specification's does.
+    For a key pair from `keypair` and a call of `signature` that comes back (with a signature, or with `none` after `fuel`
+    attempts; `fuel` within the code's u16 nonce budget): with (ρ, K, tr, s1, s2, t0) the decoding of sk, A = ExpandA(ρ),
+    μ = H(tr ‖ M′, 64) and ρ″ derived from K, μ and the drawn bytes — if the specification's rejection loop
+    (FIPS 204 Alg. 7 / Dilithium 3.1 Sign) stops at some κ < fuel with σ, then the call returned `some σ`.
+    With `C08.signature_total` (no fault in any iteration) and `C05.signing_is_spec_function` (what is returned is the
+    specification's output) this leaves open only whether the *specification's* loop has an accepting iteration — a
+    statement about SHAKE-256 outputs (probability about 1/4 per iteration), observed at volume, not proved. -/
+theorem signing_stops_where_the_specification_stops (p : Params) (hp : p ∈ allParams) (seed : Option (List Nat)) (tape : Tape)
+    (pk sk : List Nat) (tape' : Tape) (hk : keypair p seed tape = .ok (pk, sk, tape'))
+    (fuel : Nat) (hf : (p.l : Int) * (fuel : Int) ≤ 65535) (msg : List Nat) (randomized : Bool) (tape2 : Tape)
+    (res : Option (List Nat)) (tape3 : Tape)
+    (hs : signature p fuel msg sk randomized tape2 = .ok (res, tape3)) :
+    ∃ (rho tr key : List Nat) (s1 s2 t1 t0 : PolyVec) (mat : List PolyVec) (r : Option (List Nat)),
+      unpack_sk p sk = .ok (rho, tr, key, t0, s1, s2) ∧ matrix_expand p FUEL rho = .ok mat ∧ KeyFacts p mat s1 s2 t1 t0 ∧
+      (randomized = false → r = none) ∧
+      (randomized = true → ∃ n, n = (if p.mldsa = true then SEEDBYTES else CRHBYTES) ∧ r = some (tape2.take n)) ∧
+      ∀ κ σ, κ < fuel →
+        IsLoopOutput p mat s1 s2 t0 (SHAKE256 (tr ++ msg) CRHBYTES) (rhoPrimeSpec p key (SHAKE256 (tr ++ msg) CRHBYTES) r) κ σ →
+        res = some σ :=
+  SignTerm.signature_returns_spec_output p hp seed tape pk sk tape' hk fuel hf msg randomized tape2 res tape3 hs
 
 end DV.C01
